@@ -66,21 +66,23 @@ const (
 
 // Task is a simulated goroutine.
 type Task struct {
-	ID         int
-	Name       string
-	gate       chan struct{}
-	state      int
-	ready      func() bool // when blocked: may the task proceed?
-	blockOn    string      // description of what it waits for
-	blockSite  int
-	killed     bool
-	exited     chan struct{}
-	prio       int
-	vc         []uint32 // vector clock (race.go)
-	parent     int
-	spawnSite  int
-	panicVal   any
-	panicStack string
+	ID          int
+	Name        string
+	gate        chan struct{}
+	state       int
+	ready       func() bool // when blocked: may the task proceed?
+	blockOn     string      // description of what it waits for
+	blockSite   int
+	killed      bool
+	exited      chan struct{}
+	prio        int
+	vc          []uint32 // vector clock (race.go)
+	parent      int
+	spawnSite   int
+	held        int // write locks currently held (Mutex.Lock, RWMutex.Lock)
+	heldAtPanic int // most write locks held when a deferred unlock ran during panic unwinding
+	panicVal    any
+	panicStack  string
 	// IsCaller marks tasks whose being blocked forever counts as deadlock
 	// (root and harness-level callers); library-internal goroutines that are
 	// merely leaked are reported separately.
@@ -96,6 +98,8 @@ type PanicInfo struct {
 	// Fault is set when the panic was a memory fault (frozen-memory trap).
 	Fault     bool
 	FaultAddr uintptr
+	// LocksHeld is the number of (write) locks the task held when it panicked.
+	LocksHeld int
 }
 
 // Report is the outcome of a run.
@@ -262,7 +266,10 @@ func (sim *Sim) newTask(name string, fn func(), parent int, site int) *Task {
 }
 
 func (sim *Sim) recordPanic(t *Task, p any) {
-	pi := PanicInfo{Task: t.ID, Name: t.Name, Value: fmt.Sprint(p), Stack: string(debug.Stack())}
+	pi := PanicInfo{Task: t.ID, Name: t.Name, Value: fmt.Sprint(p), Stack: string(debug.Stack()), LocksHeld: t.held}
+	if t.heldAtPanic > pi.LocksHeld {
+		pi.LocksHeld = t.heldAtPanic
+	}
 	if re, ok := p.(runtime.Error); ok {
 		if ae, ok := re.(interface{ Addr() uintptr }); ok {
 			pi.Fault = true
